@@ -121,8 +121,13 @@ class C18(Profile):
                 so = rng.choice([0, 0, 1, 2])
                 op['source_only'], op['target_only'] = so == 1, so == 2
                 op['as'] = rng.choice(['obj', 'dict', 'id'])
-                if kind == 'related_to' and rng.random() < 0.3:
-                    op['filter_type'] = pool[rng.randrange(n_obj)]['type']
+                if kind == 'related_to' and rng.random() < 0.5:
+                    t1, t2 = pool[rng.randrange(n_obj)]['type'], pool[rng.randrange(n_obj)]['type']
+                    tgt = pool[rng.randrange(n_obj)]
+                    op['rfilters'] = rng.choice([
+                        [['type', '=', t1]], [['type', '!=', t1]], [['type', 'in', [t1, t2]]], [['type', '!=', t1], ['type', '!=', t2]],
+                        [['id', '!=', C.mkid(tgt['type'], tgt['id_n'])]], [['created_by_ref', '=', C.mkid('identity', pool[0]['id_n'])]],
+                        [['type', '=', t1], ['labels', 'contains', 'v0']], [['labels', 'in', ['v1', 'v2']]]])
             if kind == 'query':
                 op['qtype'] = pool[rng.randrange(len(pool))]['type']
             if rng.random() < 0.25 and kind in ('get', 'all_versions', 'query'):
@@ -142,7 +147,7 @@ class C18(Profile):
 
     def simplify(self, op):
         out = []
-        for k in ('cfilter', 'filter_type', 'rtype'):
+        for k in ('cfilter', 'filter_type', 'rtype', 'rfilters', 'cfilter_inner'):
             if op.get(k):
                 out.append({a: b for a, b in op.items() if a != k})
         if op.get('source_only') or op.get('target_only'):
@@ -443,9 +448,10 @@ class C18(Profile):
                 world.state(fac, kind, len(mems), tuple(sorted(kw)), bool(rels))
             else:
                 flt = None
-                if op.get('filter_type'):
-                    flt = [s.Filter('type', '=', op['filter_type'])]
-                    kw['filters'] = flt
+                rtrip = [tuple(x) for x in (op.get('rfilters') or ([['type', '=', op['filter_type']]] if op.get('filter_type') else []))]
+                if rtrip:
+                    flt = [s.Filter(*t) for t in rtrip]
+                    kw['filters'] = flt if op.get('j', 0) % 3 else flt[0] if len(flt) == 1 else flt
                 out = call(target.related_to, arg, **kw)
                 self.total(out, kind, detail)
                 obs = keys_of(out.value)
@@ -453,7 +459,7 @@ class C18(Profile):
                 for d in rels.values():
                     ids.update((d['source_ref'], d['target_ref']))
                 ids.discard(sid)
-                exp = [key for key, d in vis.items() if key[0] in ids and (not op.get('filter_type') or d['type'] == op['filter_type'])]
+                exp = [key for key, d in vis.items() if key[0] in ids and FE.matches(d, rtrip)]
                 world.compared()
                 if len(mems) > 1:
                     self.dups(obs, kind, mems, detail)
